@@ -11,7 +11,7 @@ from . import core, loader
 
 
 class Obligation:
-    def __init__(self, name, fn, scenarios=None, required=True, bounds="", outside=(), budget_s=600,
+    def __init__(self, name, fn, scenarios=None, required=True, bounds="", outside=(), budget_s=1800,
                  step_budget=20000, solver_timeout_ms=30000, must_cover=(), kind="decide",
                  kernel=(), assumptions=(), chunk_s=4.0, max_paths=None):
         self.name = name
